@@ -70,8 +70,9 @@ type Prover struct {
 }
 
 type phiInv struct {
-	lower ssa.Value // φ ≥ lower (when non-nil)
-	upper ssa.Value // φ ≤ upper (when non-nil)
+	lower  ssa.Value // φ ≥ lower (when non-nil)
+	upper  ssa.Value // φ ≤ upper (when non-nil), φ < upper when strict
+	strict bool
 }
 
 func New(cfg *Config) *Prover {
@@ -435,7 +436,11 @@ func (e *Env) term(v ssa.Value) lin.Term {
 				} else {
 					hi = e.Term(inv.upper)
 				}
-				e.Facts = append(e.Facts, lin.LE(t, hi, "loop invariant "+x.Comment+" ≤ "+hi.String()))
+				if inv.strict {
+					e.Facts = append(e.Facts, lin.LT(t, hi, "loop invariant "+x.Comment+" < "+hi.String()))
+				} else {
+					e.Facts = append(e.Facts, lin.LE(t, hi, "loop invariant "+x.Comment+" ≤ "+hi.String()))
+				}
 			}
 		}
 		return t
@@ -661,9 +666,10 @@ func (e *Env) Prove(goal lin.Ineq) bool { return lin.Entails(e.Facts, goal) }
 // are inductive.
 func (p *Prover) InferInvariants(fn *ssa.Function) {
 	type cand struct {
-		phi   *ssa.Phi
-		lower ssa.Value
-		upper ssa.Value
+		phi    *ssa.Phi
+		lower  ssa.Value
+		upper  ssa.Value
+		strict bool
 	}
 	var cands []cand
 	for _, b := range fn.Blocks {
@@ -686,7 +692,7 @@ func (p *Prover) InferInvariants(fn *ssa.Function) {
 			}
 			for i, ev := range phi.Edges {
 				if !b.Dominates(b.Preds[i]) {
-					cands = append(cands, cand{phi, ev, nil})
+					cands = append(cands, cand{phi, ev, nil, false})
 				}
 			}
 			// upper bounds: φ ≤ Y for guards v < Y / v ≤ Y on the back-edge value v (or φ itself), Y defined outside the loop
@@ -709,7 +715,10 @@ func (p *Prover) InferInvariants(fn *ssa.Function) {
 								continue
 							}
 						}
-						cands = append(cands, cand{phi, nil, bo.Y})
+						cands = append(cands, cand{phi, nil, bo.Y, false})
+						if bo.Op == token.LSS {
+							cands = append(cands, cand{phi, nil, bo.Y, true})
+						}
 					}
 				}
 			}
@@ -723,7 +732,7 @@ func (p *Prover) InferInvariants(fn *ssa.Function) {
 			}
 		}
 		for _, c := range cands {
-			p.inv[c.phi] = append(p.inv[c.phi], phiInv{c.lower, c.upper})
+			p.inv[c.phi] = append(p.inv[c.phi], phiInv{c.lower, c.upper, c.strict})
 		}
 	}
 	for iter := 0; iter < 8; iter++ {
@@ -757,7 +766,11 @@ func (p *Prover) InferInvariants(fn *ssa.Function) {
 					} else {
 						hi = env.Term(c.upper)
 					}
-					if !env.Prove(lin.LE(env.Term(ev), hi, "")) {
+					goal := lin.LE(env.Term(ev), hi, "")
+					if c.strict {
+						goal = lin.LT(env.Term(ev), hi, "")
+					}
+					if !env.Prove(goal) {
 						ok = false
 					}
 				}
